@@ -17,4 +17,8 @@ def run(ctx):
     D.reg_key(ctx)
     ctx.rule("R-SUBSCRIBE-HOOK", "Dm1.subscribe leaves this object's receive hook registered with its CA (per-object state)", floor=2)
     D.subscribe_once(ctx)
+    from rules import generic as GN
+    ctx.rule("R-LOCAL-DEFINED", "no path of a DM1 / DTC / DM22 function reads a local before assigning it (the DM1 sender runs as a timer callback)", floor=15)
+    GN.local_defined(ctx, [f for f in ctx.prog.funcs.values() if f.cls is not None and f.cls.name in ("Dm1", "DTC", "DtcLamp", "Dm22")],
+                     why=" - raised in the cyclic sender it ends the job thread: no further DM1 is sent")
     return "bit layouts of DTC/DM1/DM22 against the J1939-73 tables and registration/deregistration key agreement"
